@@ -92,6 +92,16 @@ Definition chk_encode (sp_zero_sign : bool) := both
   (fun c : Z * pyfloat * Z * (Z * Z * Z) => let '(k, x, r, parts) := c in
      (FPH_to_ieee754 (hfmt sp_zero_sign k) x =? r) && t3_eqb (FPH_to_parts (hfmt sp_zero_sign k) x) parts)
   (fun c => true).
+(* ---- fp_to_parts on a finite non-zero float: (x, s, e, numerator and log2 of the denominator of m) *)
+Definition chk_parts := both
+  (fun c : pyfloat * Z * Z * Z * Z => let '(x, s, e, mn, md) := c in
+     match x with
+     | PFin neg n d => (b2z neg =? s) && (fp_to_parts_e n d =? e) && Qeq_bool (fp_to_parts_m n d) (inject_Z mn * two_pow (- md))
+     | _ => false
+     end)
+  (fun c => let '(x, s, e, mn, md) := c in       (* 1 <= m < 2 and (-1)^s * m * 2^e = x *)
+     (2 ^ md <=? mn) && (mn <? 2 ^ (md + 1)) &&
+     xeqb (pf_value x) (XFin (sgnq (s =? 1) * (inject_Z mn * two_pow (e - md))))).
 (* ---- ieee754_to_sp/dp: (fmt, v, float) *)
 Definition chk_fph_decode := both
   (fun c : Z * Z * pyfloat => let '(k, v, r) := c in pf_eqb (FPH_from_ieee754 (hfmt false k) v) r)
